@@ -46,6 +46,7 @@ def worker(arg):
                 roots = [plants_abs] + roots
             elif c["extra"] == "after":
                 roots = roots + [plants_abs]
+            succeeded = None
             try:
                 if c["api"] == "files":
                     direct, _tr = pydsdl.read_files([target], roots, allow_unregulated_fixed_port_id=True)
@@ -57,6 +58,7 @@ def worker(arg):
                     t = res[0] if len(res) == 1 else None
                     if t is None:
                         diff.append(("read_namespace returned %d types" % len(res),))
+                succeeded = True
                 if t is not None:
                     ident = out["identity"]
                     exp_root = os.path.join(base, *ident["root"])
@@ -69,12 +71,16 @@ def worker(arg):
                     if (t.has_fixed_port_id != (ident["port"] >= 0)) or t.short_name != c["name"] or t.root_namespace != ident["components"][0]:
                         diff.append(("derived accessors", t.has_fixed_port_id, t.short_name, t.root_namespace))
             except pydsdl.InvalidDefinitionError as ex:
+                succeeded = False
                 if out["promised"]:
                     diff.append(("a documented way of designating target and root failed", type(ex).__name__, str(ex)[:300]))
             except Exception as ex:
                 diff.append(("exception other than InvalidDefinitionError", type(ex).__name__, str(ex)[:300]))
         finally:
             os.chdir(old)
+        # the strategy-by-strategy transcription in Paths.tla predicts the outcome of every combination, promised or not
+        if succeeded is not None and succeeded != (out["model"] == "ok"):
+            diff.append(("outcome differs from the transcribed inference strategies", "succeeded" if succeeded else "rejected", out["model"]))
     r = {"nt": bool(out["promised"]), "key": core.jhash(tlaval.to_json(c))}
     if diff:
         r["bad"] = {"kind": "paths", "case": tlaval.to_json(c), "target": target, "roots": [str(x) for x in roots], "cwd": list(c["cwd"]),
